@@ -237,3 +237,159 @@ func c02GenLong(r *rng, n int) c02Input {
 	emit()
 	return c02Input{Cfg: cfg, Blocks: blocks, Ops: ops}
 }
+
+// ---------------------------------------------------------------------------------------------
+// Reset at the HEADER-HASH PAGE boundaries.  dao.DeleteHeaderHashesHead(since = h+1) has to delete the pages from the
+// page of `since` forwards and keep the complete page right before it - HeaderHashes.init needs it as its `previous`
+// page.  Reset targets h with h+1 around the multiples of 2000 need a chain longer than a page: the long-chain builder
+// (mostly empty blocks), ONE chain for all targets, each target on a fresh copy of the database.
+//   (a) the completed reset: the database equals that of a node that only ever saw blocks <= h (trie garbage aside);
+//       re-opened, it is at h, equal to the reference, and accepts the following blocks;
+//   (b) (targets listed in Prefix) a crash after every batch of the reset: the re-opened node resumes and ends there too.
+
+type c02LongResetIn struct {
+	Cfg     c02Cfg    `json:"cfg"`
+	Blocks  [][]c02Tx `json:"blocks"`
+	Targets []uint32  `json:"targets"`
+	Prefix  []uint32  `json:"prefix"` // targets whose every batch boundary is re-opened
+}
+
+func c02HeaderPages(d map[string][]byte) []uint32 {
+	var ps []uint32
+	for k := range d {
+		if k[0] == byte(storage.IXHeaderHashList) && len(k) == 5 {
+			ps = append(ps, binary.BigEndian.Uint32([]byte(k[1:])))
+		}
+	}
+	sort.Slice(ps, func(i, j int) bool { return ps[i] < ps[j] })
+	return ps
+}
+
+func c02RunLongReset(co *caseOut, in c02LongResetIn) error {
+	c02srih = in.Cfg.SRIH
+	kind := "longreset"
+	want := map[uint32]bool{uint32(len(in.Blocks)): true}
+	for _, t := range in.Targets {
+		want[t] = true
+	}
+	b, err := c02BuildOpt(c02History{Cfg: in.Cfg, Blocks: in.Blocks}, func(h uint32) bool { return want[h] })
+	if err != nil {
+		return err
+	}
+	defer b.close()
+	saved := c02FeedMax
+	c02FeedMax = 3
+	defer func() { c02FeedMax = saved }()
+	drive := c02Input{Cfg: in.Cfg, Blocks: in.Blocks, Ops: []c02Op{{K: "blk", N: len(in.Blocks)}, {K: "flush"}}}
+	rec, base, _, fail := c02Drive(b, drive)
+	if base != nil {
+		defer base.destroy()
+	}
+	if fail != "" {
+		co.violation(kind, kind+"/victim-run: "+c02Short(fail), in, nil)
+		return nil
+	}
+	pre := rec.batches
+	top := uint32(len(b.Blocks) - 1)
+	for _, target := range in.Targets {
+		if target >= top {
+			continue
+		}
+		vin := in
+		vin.Targets = []uint32{target}
+		vin.Prefix = nil
+		prefixes := false
+		for _, p := range in.Prefix {
+			if p == target {
+				prefixes = true
+				vin.Prefix = []uint32{target}
+			}
+		}
+		viol := func(class, note string, k int) {
+			co.violation(kind, fmt.Sprintf("%s/%s Reset(%d) of a chain of %d blocks: after batch %d of the reset: %s", kind, class, target, top, k, note), vin, map[string]any{"k": k, "class": class, "target": target})
+		}
+		st, err := c02NewStore("mem")
+		if err != nil {
+			return err
+		}
+		c02Apply(st.st, pre)
+		rec2 := &c02Rec{base: st.st}
+		bc, _, f := c02Open(rec2, in.Cfg, nil)
+		if f != "" {
+			viol("open-for-reset", c02Short(f), 0)
+			st.destroy()
+			continue
+		}
+		c0 := bc.BlockHeight()
+		rec2.node = func() (uint32, uint32) { return bc.BlockHeight(), bc.HeaderHeight() }
+		var rerr error
+		m := c02Try(func() { rerr = bc.Reset(target) })
+		rb := rec2.batches
+		final := c02NormDump(c02Dump(st.st))
+		pages := c02HeaderPages(final)
+		if m != "" || rerr != nil {
+			viol("reset-fails", c02Short(fmt.Sprint(m, rerr))+fmt.Sprintf(" (header-hash pages left: %v)", pages), len(rb))
+		}
+		ref := c02NormDump(b.Snaps[target].Dump)
+		if n, ex := c02DiffDumps(final, ref, func(k string, va, vb []byte) bool {
+			return k[0] == byte(storage.DataMPT) && vb == nil // extra trie nodes only
+		}); n > 0 {
+			viol("not-indistinguishable", fmt.Sprintf("after Reset(%d) the database differs from a node that only synchronised to %d in %d keys (trie garbage aside): %v", target, target, n, ex), len(rb))
+		}
+		c02Try(func() { bc.Close() })
+		var recov []c02Recovered
+		if prefixes {
+			cin := c02Input{Cfg: in.Cfg, Blocks: in.Blocks}
+			recov, err = c02ResetPrefixes(b, cin, pre, rb, c0, target, final, viol)
+			if err != nil {
+				st.destroy()
+				return err
+			}
+		} else {
+			// the completed reset only
+			res := c02Recovered{K: len(rb), Res: "ok"}
+			bc2, _, fail := c02Open(c02NoClose{st.st}, in.Cfg, nil)
+			if fail != "" {
+				res.Res, res.Err = "fail", c02Short(fail)
+				viol("reopen-fails", c02Short(fail), len(rb))
+			} else {
+				go bc2.Run()
+				c02CheckNode(b, bc2, st.st, in.Cfg, len(rb), top, int(target), &res, viol)
+				bc2.Close()
+			}
+			recov = append(recov, res)
+		}
+		st.destroy()
+		var ps []string
+		for _, p := range pages {
+			ps = append(ps, fmt.Sprint(p))
+		}
+		d := (target + 1) % c02PS
+		where := "inside"
+		switch {
+		case d == 0:
+			where = "since=page-start"
+		case d == 1:
+			where = "since=page-start+1"
+		case d == c02PS-1:
+			where = "since=page-start-1"
+		}
+		co.add(kind, fmt.Sprintf("%s/prefixes-%v", where, prefixes), d <= 1 || d == c02PS-1, vin,
+			map[string]any{"target": target, "top": top, "batches": len(rb), "pages_after": pages, "recovered": recov},
+			fmt.Sprintf("CResetPages %d %d %d %s", c02PS, c0, target, coqList(ps)))
+	}
+	return nil
+}
+
+func c02GenLongReset(r *rng, thorough bool) c02LongResetIn {
+	n := c02PS + 14
+	targets := []uint32{c02PS - 2, c02PS - 1} // h+1 = 1999, 2000
+	prefix := []uint32{c02PS - 1}
+	if thorough {
+		n = 2*c02PS + 16
+		targets = []uint32{1, c02PS - 2, c02PS - 1, c02PS, 2*c02PS - 2, 2*c02PS - 1, 2 * c02PS}
+		prefix = targets
+	}
+	g := c02GenLong(r, n)
+	return c02LongResetIn{Cfg: c02Cfg{SRIH: g.Cfg.SRIH, Backend: "mem"}, Blocks: g.Blocks, Targets: targets, Prefix: prefix}
+}
